@@ -15,6 +15,8 @@ import Poulpy.Lemmas.MulTensor
 import Poulpy.Lemmas.EpNorm
 import Poulpy.Lemmas.GadgetCore
 import Poulpy.Lemmas.ValBridge
+import Poulpy.Lemmas.AccAdd
+import Poulpy.Lemmas.MulNorm
 
 /-!
 # C04 — external products and CMux multiply by the EpGGSW plaintext within noise
@@ -845,5 +847,152 @@ example (m2 : Ks.R 1) (σ : ℕ → Ks.R 1) :
     m2 σ (fun i r => Gadget.val ((2 : Ks.R 1) ^ staleG.base2k) staleG.size (Ks.keyPhase 1 [[1]] staleG.toPMat i r)
                     - m2 * σ i * ((2 : Ks.R 1) ^ staleG.base2k) ^ (staleG.size - (r + 1) * staleG.dsize))
     (by decide) (by decide) rfl (by decide) (Ks.entry_length staleG.toPMat 1 rfl (by decide)) (by decide)
+    (by intro i _ r _; exact (add_sub_cancel _ _).symm)
+instance (c : Col) : Decidable (C02L.ColSmall c) := by unfold C02L.ColSmall C02L.PolySmall; infer_instance
+instance (N : Nat) (c : Col) : Decidable (C02L.LimbsN N c) := by unfold C02L.LimbsN; infer_instance
+
+/-- **`cmux_decrypts`** — `Cmux::cmux` on the i64 accumulator (FFT64 back ends), every `dsize ≥ 1`, every rank: one composed statement.  With
+the no-overflow lemma `Core.bigAddSmallAssign_exact` (2^62 head-room on the product and on `f`, `Lemmas/AccAdd.lean`) the accumulator is the exact
+limb-wise sum `P + fit(f)`, the phase value is additive (`ι_valP_phase_add`), `P = epInternal (t − f)` has the value of `ep_executed_identity`, and the
+final normalisation contributes the kernel relation `(A, B, En)`:
+`A·phase(res) = B·(m2·Σ_i σ_i·usedVal((t−f)_i) + Σ_i(Σ_r digit·E − dropped − β^S·head) + phase(f at S limbs)) + (E₀ + Σ s_i E_{i+1})` —
+`m2 = 0` gives `f`, `m2 = 1` gives `t` up to the gadget's dropped limbs (`cmux_selects` is the algebraic form). -/
+theorem cmux_decrypts {N : Nat} (rb rs : Nat) (t f res : List Col) (g : EpGGSW) (res0 tmp0 : List Col) (sk : List Poly)
+    (hg : (g.n == N && g.wf && rb == g.base2k && shapeOk N (g.rank + 1) (t.getD 0 []).length t
+       && shapeOk N (g.rank + 1) (f.getD 0 []).length f) = true)
+    (hok : cmux false N rb rs t f g res0 tmp0 = .ok res)
+    (A B : Int) (En : Nat → Poly) (hEn : ∀ i, (En i).length = N)
+    (hPwf : ∀ c ∈ epInternal (glweSubSameRank N rs t f) g res0 tmp0, C02L.ColWF N g.size c)
+    (hPs : ∀ c ∈ epInternal (glweSubSameRank N rs t f) g res0 tmp0, C02L.ColSmall c)
+    (hfwf : ∀ j, j < g.rank + 1 → C02L.LimbsN N (f.getD j [])) (hfs : ∀ j, j < g.rank + 1 → C02L.ColSmall (f.getD j []))
+    (hres : C02L.GWF N (Ks.mkCt rb N res))
+    (hK : ∀ i, i < g.rank + 1 → ∀ C,
+      epBigNormalize false N rb rs (bigAddSmallAssign false ((epInternal (glweSubSameRank N rs t f) g res0 tmp0).getD i []) (f.getD i [])) g.base2k
+        = some C →
+      polyScale A (C02L.valP rb N C) = polyAdd (polyScale B (C02L.valP g.base2k N
+        (bigAddSmallAssign false ((epInternal (glweSubSameRank N rs t f) g res0 tmp0).getD i []) (f.getD i [])))) (En i))
+    (m2 : Ks.R N) (σ : ℕ → Ks.R N) (E : ℕ → ℕ → Ks.R N)
+    (hd : 1 ≤ g.dsize) (hN : 0 < N) (hn : g.n = N)
+    (haD : shapeOk g.n (g.rank + 1) ((glweSubSameRank N rs t f).getD 0 []).length (glweSubSameRank N rs t f) = true)
+    (h0 : shapeOk g.n (g.rank + 1) g.size res0 = true) (ht : shapeOk g.n (g.rank + 1) g.size tmp0 = true)
+    (hM : ∀ j q, (g.toPMat.entry j q).length = N) (hS : g.dnum * g.dsize ≤ g.size)
+    (hkey : ∀ i, i < g.rank + 1 → ∀ r, r < g.dnum →
+      Gadget.val ((2 : Ks.R N) ^ g.base2k) g.size (Ks.keyPhase N sk g.toPMat i r)
+        = m2 * σ i * ((2 : Ks.R N) ^ g.base2k) ^ (g.size - (r + 1) * g.dsize) + E i r) :
+    (A : Ks.R N) * Ks.ι N (C02L.valP rb N (Core.Ops.phase sk (Ks.mkCt rb N res)))
+      = (B : Ks.R N) * ((m2 * ∑ i ∈ Finset.range (g.rank + 1),
+            σ i * Gadget.usedVal ((2 : Ks.R N) ^ g.base2k) g.size g.dsize g.dnum ((glweSubSameRank N rs t f).getD 0 []).length
+              (Ks.inLimb N (mkBuf g.n (g.rank + 1) ((glweSubSameRank N rs t f).getD 0 []).length (glweSubSameRank N rs t f)) i)
+        + ∑ i ∈ Finset.range (g.rank + 1),
+            (∑ r ∈ Finset.range g.dnum,
+                Gadget.digit ((2 : Ks.R N) ^ g.base2k) g.dsize g.dnum ((glweSubSameRank N rs t f).getD 0 []).length
+                  (Ks.inLimb N (mkBuf g.n (g.rank + 1) ((glweSubSameRank N rs t f).getD 0 []).length (glweSubSameRank N rs t f)) i) r * E i r
+              - Gadget.dropped ((2 : Ks.R N) ^ g.base2k) g.size g.dsize g.dnum ((glweSubSameRank N rs t f).getD 0 []).length
+                  (Ks.inLimb N (mkBuf g.n (g.rank + 1) ((glweSubSameRank N rs t f).getD 0 []).length (glweSubSameRank N rs t f)) i) (Ks.keyPhase N sk g.toPMat i)
+              - ((2 : Ks.R N) ^ g.base2k) ^ g.size * Gadget.head ((2 : Ks.R N) ^ g.base2k) g.dsize g.dnum ((glweSubSameRank N rs t f).getD 0 []).length
+                  (Ks.inLimb N (mkBuf g.n (g.rank + 1) ((glweSubSameRank N rs t f).getD 0 []).length (glweSubSameRank N rs t f)) i) (Ks.keyPhase N sk g.toPMat i)))
+          + Ks.ι N (C02L.valP g.base2k N (Core.Ops.phase sk (Ks.mkCt g.base2k N
+              ((List.range (g.rank + 1)).map (fun j => C02L.fit N g.size (f.getD j [])))))))
+        + Ks.ι N (C02L.errTo (min g.rank sk.length) sk En) := by
+  have hlen := epInternal_length (glweSubSameRank N rs t f) g res0 tmp0
+  have hPget : ∀ j, j < g.rank + 1 → C02L.ColWF N g.size ((epInternal (glweSubSameRank N rs t f) g res0 tmp0).getD j []) ∧
+      C02L.ColSmall ((epInternal (glweSubSameRank N rs t f) g res0 tmp0).getD j []) := by
+    intro j hj
+    have hj' : j < (epInternal (glweSubSameRank N rs t f) g res0 tmp0).length := by rw [hlen]; exact hj
+    rw [List.getD_eq_getElem?_getD, List.getElem?_eq_getElem hj']
+    exact ⟨hPwf _ (List.getElem_mem hj'), hPs _ (List.getElem_mem hj')⟩
+  rw [cmux_accumulator false N rb rs t f g res0 tmp0 hg] at hok
+  have hm := optOutcome_ok _ _ hok
+  rw [mapM_comp (fun j => bigAddSmallAssign false ((epInternal (glweSubSameRank N rs t f) g res0 tmp0).getD j []) (f.getD j []))
+    (fun c => epBigNormalize false N rb rs c g.base2k)] at hm
+  have hacc_eq : (List.range (g.rank + 1)).map (fun j => bigAddSmallAssign false ((epInternal (glweSubSameRank N rs t f) g res0 tmp0).getD j []) (f.getD j []))
+      = (List.range (g.rank + 1)).map (fun j => C02L.colAdd ((epInternal (glweSubSameRank N rs t f) g res0 tmp0).getD j []) (C02L.fit N g.size (f.getD j []))) := by
+    apply List.map_congr_left
+    intro j hj
+    have hj' := List.mem_range.mp hj
+    rw [bigAddSmallAssign_exact (N := N) _ _ (hPget j hj').1.2 (hPget j hj').2 (hfs j hj'), (hPget j hj').1.1]
+  have hqwf : ∀ j, j < g.rank + 1 → C02L.ColWF N g.size (C02L.fit N g.size (f.getD j [])) := fun j hj => C02L.fit_wf (hfwf j hj) g.size
+  have hadd := ι_valP_phase_add N hN g.base2k g.size sk g.rank (fun j => (epInternal (glweSubSameRank N rs t f) g res0 tmp0).getD j [])
+    (fun j => C02L.fit N g.size (f.getD j [])) (fun j hj => (hPget j hj).1) hqwf
+  have hPmap : (List.range (g.rank + 1)).map (fun j => (epInternal (glweSubSameRank N rs t f) g res0 tmp0).getD j [])
+      = epInternal (glweSubSameRank N rs t f) g res0 tmp0 := by
+    apply List.ext_getElem
+    · simp [hlen]
+    · intro i h1 h2
+      simp [List.getD_eq_getElem?_getD, List.getElem?_eq_getElem h2]
+  rw [hPmap] at hadd
+  have hne : epInternal (glweSubSameRank N rs t f) g res0 tmp0 ≠ [] := by
+    intro h; rw [h] at hlen; simp at hlen
+  have hsumwf : ∀ c ∈ (List.range (g.rank + 1)).map (fun j => C02L.colAdd ((epInternal (glweSubSameRank N rs t f) g res0 tmp0).getD j []) (C02L.fit N g.size (f.getD j []))),
+      C02L.ColWF N g.size c := by
+    intro c hc
+    obtain ⟨j, hj, rfl⟩ := List.mem_map.mp hc
+    have hj' := List.mem_range.mp hj
+    exact C02L.colAdd_wf (hPget j hj').1 (hqwf j hj')
+  have hnes : (List.range (g.rank + 1)).map (fun j => C02L.colAdd ((epInternal (glweSubSameRank N rs t f) g res0 tmp0).getD j []) (C02L.fit N g.size (f.getD j []))) ≠ [] := by
+    intro h; have := congrArg List.length h; simp at this
+  have hacc : C02L.GWF N (Ks.mkCt g.base2k N ((List.range (g.rank + 1)).map (fun j => C02L.colAdd ((epInternal (glweSubSameRank N rs t f) g res0 tmp0).getD j []) (C02L.fit N g.size (f.getD j []))))) := by
+    refine ⟨rfl, hnes, ?_⟩
+    intro c hc
+    have e : (Ks.mkCt g.base2k N ((List.range (g.rank + 1)).map (fun j => C02L.colAdd ((epInternal (glweSubSameRank N rs t f) g res0 tmp0).getD j []) (C02L.fit N g.size (f.getD j []))))).size = g.size := by
+      show (((List.range (g.rank + 1)).map (fun j => C02L.colAdd ((epInternal (glweSubSameRank N rs t f) g res0 tmp0).getD j []) (C02L.fit N g.size (f.getD j [])))).getD 0 []).length = g.size
+      have h0' : 0 < ((List.range (g.rank + 1)).map (fun j => C02L.colAdd ((epInternal (glweSubSameRank N rs t f) g res0 tmp0).getD j []) (C02L.fit N g.size (f.getD j [])))).length := by simp
+      rw [List.getD_eq_getElem?_getD, List.getElem?_eq_getElem h0']
+      exact (hsumwf _ (List.getElem_mem h0')).1
+    rw [e]
+    exact hsumwf c hc
+  rw [hacc_eq] at hm
+  have h1 := mapM_kernel_phase_modulo_norm (fun c => epBigNormalize false N rb rs c g.base2k) rb g.base2k _ res hm hres hacc A B En hEn (by
+    intro i hi C hC
+    have hi' : i < g.rank + 1 := by simpa using hi
+    have e : ((List.range (g.rank + 1)).map (fun j => C02L.colAdd ((epInternal (glweSubSameRank N rs t f) g res0 tmp0).getD j []) (C02L.fit N g.size (f.getD j [])))).getD i []
+        = ((List.range (g.rank + 1)).map (fun j => bigAddSmallAssign false ((epInternal (glweSubSameRank N rs t f) g res0 tmp0).getD j []) (f.getD j []))).getD i [] := by
+      rw [hacc_eq]
+    rw [e] at hC ⊢
+    have e2 : ((List.range (g.rank + 1)).map (fun j => bigAddSmallAssign false ((epInternal (glweSubSameRank N rs t f) g res0 tmp0).getD j []) (f.getD j []))).getD i []
+        = bigAddSmallAssign false ((epInternal (glweSubSameRank N rs t f) g res0 tmp0).getD i []) (f.getD i []) := by
+      simp [List.getD_eq_getElem?_getD, List.getElem?_map, List.getElem?_range hi']
+    rw [e2] at hC ⊢
+    exact hK i hi' C hC) sk
+  have e1 : ((List.range (g.rank + 1)).map (fun j => C02L.colAdd ((epInternal (glweSubSameRank N rs t f) g res0 tmp0).getD j []) (C02L.fit N g.size (f.getD j [])))).length - 1 = g.rank := by simp
+  rw [e1] at h1
+  have h2 := phase_norm_ι N rb g.base2k sk res _ A B _ (C02L.errTo_length _ sk En hEn) h1
+  have h3 := ep_executed_identity N sk (glweSubSameRank N rs t f) g res0 tmp0 ((2 : Ks.R N) ^ g.base2k) m2 σ E hd hN hn haD h0 ht hM hS hkey
+  rw [h2, hadd, ι_valP_phase_rows' N hN g.base2k g.size sk _ hne hPwf, h3]
+
+example (m2 : Ks.R 1) (σ : ℕ → Ks.R 1) :
+    ((16 : Int) : Ks.R 1) * Ks.ι 1 (C02L.valP 4 1 (Core.Ops.phase [[1]] (Ks.mkCt 4 1 [[[2], [0], [1]], [[0], [0], [0]]])))
+      = ((1 : Int) : Ks.R 1) * ((m2 * ∑ i ∈ Finset.range (staleG.rank + 1),
+            σ i * Gadget.usedVal ((2 : Ks.R 1) ^ staleG.base2k) staleG.size staleG.dsize staleG.dnum ((glweSubSameRank 1 3 ([[[1], [2], [3]], [[0], [1], [0]]] : List Col) ([[[0], [0], [1]], [[0], [0], [0]]] : List Col)).getD 0 []).length
+              (Ks.inLimb 1 (mkBuf staleG.n (staleG.rank + 1) ((glweSubSameRank 1 3 ([[[1], [2], [3]], [[0], [1], [0]]] : List Col) ([[[0], [0], [1]], [[0], [0], [0]]] : List Col)).getD 0 []).length (glweSubSameRank 1 3 ([[[1], [2], [3]], [[0], [1], [0]]] : List Col) ([[[0], [0], [1]], [[0], [0], [0]]] : List Col))) i)
+        + ∑ i ∈ Finset.range (staleG.rank + 1),
+            (∑ r ∈ Finset.range staleG.dnum,
+                Gadget.digit ((2 : Ks.R 1) ^ staleG.base2k) staleG.dsize staleG.dnum ((glweSubSameRank 1 3 ([[[1], [2], [3]], [[0], [1], [0]]] : List Col) ([[[0], [0], [1]], [[0], [0], [0]]] : List Col)).getD 0 []).length
+                  (Ks.inLimb 1 (mkBuf staleG.n (staleG.rank + 1) ((glweSubSameRank 1 3 ([[[1], [2], [3]], [[0], [1], [0]]] : List Col) ([[[0], [0], [1]], [[0], [0], [0]]] : List Col)).getD 0 []).length (glweSubSameRank 1 3 ([[[1], [2], [3]], [[0], [1], [0]]] : List Col) ([[[0], [0], [1]], [[0], [0], [0]]] : List Col))) i) r *
+                  (Gadget.val ((2 : Ks.R 1) ^ staleG.base2k) staleG.size (Ks.keyPhase 1 [[1]] staleG.toPMat i r)
+                    - m2 * σ i * ((2 : Ks.R 1) ^ staleG.base2k) ^ (staleG.size - (r + 1) * staleG.dsize))
+              - Gadget.dropped ((2 : Ks.R 1) ^ staleG.base2k) staleG.size staleG.dsize staleG.dnum ((glweSubSameRank 1 3 ([[[1], [2], [3]], [[0], [1], [0]]] : List Col) ([[[0], [0], [1]], [[0], [0], [0]]] : List Col)).getD 0 []).length
+                  (Ks.inLimb 1 (mkBuf staleG.n (staleG.rank + 1) ((glweSubSameRank 1 3 ([[[1], [2], [3]], [[0], [1], [0]]] : List Col) ([[[0], [0], [1]], [[0], [0], [0]]] : List Col)).getD 0 []).length (glweSubSameRank 1 3 ([[[1], [2], [3]], [[0], [1], [0]]] : List Col) ([[[0], [0], [1]], [[0], [0], [0]]] : List Col))) i) (Ks.keyPhase 1 [[1]] staleG.toPMat i)
+              - ((2 : Ks.R 1) ^ staleG.base2k) ^ staleG.size * Gadget.head ((2 : Ks.R 1) ^ staleG.base2k) staleG.dsize staleG.dnum ((glweSubSameRank 1 3 ([[[1], [2], [3]], [[0], [1], [0]]] : List Col) ([[[0], [0], [1]], [[0], [0], [0]]] : List Col)).getD 0 []).length
+                  (Ks.inLimb 1 (mkBuf staleG.n (staleG.rank + 1) ((glweSubSameRank 1 3 ([[[1], [2], [3]], [[0], [1], [0]]] : List Col) ([[[0], [0], [1]], [[0], [0], [0]]] : List Col)).getD 0 []).length (glweSubSameRank 1 3 ([[[1], [2], [3]], [[0], [1], [0]]] : List Col) ([[[0], [0], [1]], [[0], [0], [0]]] : List Col))) i) (Ks.keyPhase 1 [[1]] staleG.toPMat i)))
+          + Ks.ι 1 (C02L.valP staleG.base2k 1 (Core.Ops.phase [[1]] (Ks.mkCt staleG.base2k 1
+              ((List.range (staleG.rank + 1)).map (fun j => C02L.fit 1 staleG.size (([[[0], [0], [1]], [[0], [0], [0]]] : List Col).getD j [])))))))
+        + Ks.ι 1 (C02L.errTo (min staleG.rank ([[1]] : List Poly).length) [[1]] (fun _ => [0])) :=
+  cmux_decrypts (N := 1) 4 3 ([[[1], [2], [3]], [[0], [1], [0]]] : List Col) ([[[0], [0], [1]], [[0], [0], [0]]] : List Col) [[[2], [0], [1]], [[0], [0], [0]]] staleG (zeroCols 1 2 4) (zeroCols 1 2 4) [[1]]
+    (by decide) (by decide) 16 1 (fun _ => [0]) (fun _ => rfl)
+    (by decide) (by decide) (by decide) (by decide) (by decide)
+    (by
+      intro i hi C hC
+      have hi' : i = 0 ∨ i = 1 := by have : i < 2 := hi; omega
+      rcases hi' with rfl | rfl
+      · have e : epBigNormalize false 1 4 3 (bigAddSmallAssign false ((epInternal (glweSubSameRank 1 3 ([[[1], [2], [3]], [[0], [1], [0]]] : List Col) ([[[0], [0], [1]], [[0], [0], [0]]] : List Col)) staleG (zeroCols 1 2 4) (zeroCols 1 2 4)).getD 0 []) (([[[0], [0], [1]], [[0], [0], [0]]] : List Col).getD 0 [])) staleG.base2k
+            = some [[2], [0], [1]] := by decide
+        have hC' := e.symm.trans hC; injection hC' with hC'; subst hC'; decide
+      · have e : epBigNormalize false 1 4 3 (bigAddSmallAssign false ((epInternal (glweSubSameRank 1 3 ([[[1], [2], [3]], [[0], [1], [0]]] : List Col) ([[[0], [0], [1]], [[0], [0], [0]]] : List Col)) staleG (zeroCols 1 2 4) (zeroCols 1 2 4)).getD 1 []) (([[[0], [0], [1]], [[0], [0], [0]]] : List Col).getD 1 [])) staleG.base2k
+            = some [[0], [0], [0]] := by decide
+        have hC' := e.symm.trans hC; injection hC' with hC'; subst hC'; decide)
+    m2 σ (fun i r => Gadget.val ((2 : Ks.R 1) ^ staleG.base2k) staleG.size (Ks.keyPhase 1 [[1]] staleG.toPMat i r)
+                    - m2 * σ i * ((2 : Ks.R 1) ^ staleG.base2k) ^ (staleG.size - (r + 1) * staleG.dsize))
+    (by decide) (by decide) rfl (by decide) (by decide) (by decide) (Ks.entry_length staleG.toPMat 1 rfl (by decide)) (by decide)
     (by intro i _ r _; exact (add_sub_cancel _ _).symm)
 end C04
